@@ -1167,20 +1167,21 @@ def do_plant(ctx, plant):
     cur = raw(o, field)
     mode = ctx.hazard_mode
     if mode == "array-shape-change":
-        if not isinstance(cur, np.ndarray) or cur.ndim != 1:
+        if not isinstance(cur, np.ndarray) or cur.ndim != 1 or cur.dtype.kind != "f" or cur.size < 2:
             return
         new = rng.choice([np.concatenate([cur, cur[:1]]), cur[:-1] if cur.size > 2 else np.concatenate([cur, cur]), list(cur) + [1.0]])
     elif mode == "broadcast-equal":
-        if not isinstance(cur, np.ndarray) or cur.ndim != 1:
+        if not isinstance(cur, np.ndarray) or cur.ndim != 1 or cur.size < 2:
             return
         new = cur.reshape((1,) + cur.shape).copy()
     else:
+        vals = list(cur.values()) if isinstance(cur, dict) else cur if isinstance(cur, list) else None
+        if not vals or not all(isinstance(a, np.ndarray) and a.dtype.kind == "f" and a.size > 1 for a in vals):
+            return  # the prepared value was overwritten by a later edit
         if isinstance(cur, dict):
             new = {k: (v + 1 if i == 0 else v.copy()) for i, (k, v) in enumerate(cur.items())}
-        elif isinstance(cur, list) and cur and isinstance(cur[0], np.ndarray):
-            new = [cur[0] + 1] + [a.copy() for a in cur[1:]]
         else:
-            return
+            new = [cur[0] + 1] + [a.copy() for a in cur[1:]]
     setattr(o.p, name, new)
     stored = raw(o, field)
     ok = True
@@ -1605,8 +1606,8 @@ def db_case(rec, rng, case):
     REG.mark_clone_tree(r3)
     loaded = {n.p.serialNum for n in walk(r3)}
     w.update(restart=restart, loaded_max=max(loaded), n_loaded=len(loaded))
-    if loaded != written:
-        rec.violation("serial/db-load-changes-numbers", "loaded objects carry other serial numbers than the written ones", w)
+    if loaded != written:  # not part of C16 (C04 judges the round trip); recorded only
+        rec.add("db: loaded serial numbers differ from the written ones")
     fresh = []
     try:
         fresh.append(composites.Composite("after-load"))
